@@ -19,5 +19,5 @@ def plan(tier, seed):
 
 def run_shard(spec, acc):
   h = histories.History(acc, spec['hseed'], [histories.SchemaMonitor()], spec['steps'], weights=WEIGHTS,
-                        flags={'bundle_multi': 0.4})
+                        flags={'bundle_multi': 0.4}, avoid_open_triggers=False)
   h.run()
